@@ -607,6 +607,20 @@ class _ProducerStub:
             return sym.wrap_bool(self.is_step)
         return False
 
+    # node objects compare by their row: the producer may be the very node another expression denotes (e.g. the
+    # creator of the amending step); an identity comparison of the stand-in objects would decide that silently
+    def __eq__(self, other):
+        oi = getattr(other, "i", None)
+        if oi is None:
+            return False
+        return sym.wrap_bool(tm.Eq(I(self.i), I(oi)))
+
+    def __ne__(self, other):
+        r = self.__eq__(other)
+        return (not r) if isinstance(r, bool) else ~r
+
+    __hash__ = None
+
 
 FileH = ty.Handle(_FileH)
 SupplyInfoRec = ty.Rec(SupplyInfo, dict(file=FileH, state=ty.EnumOf(FileState), detached=ty.Bool, new_idep=ty.Opt(ty.Int)),
